@@ -30,12 +30,14 @@ Init == /\ l = 1 /\ cfg = NoCfg /\ rq = NoRq /\ out = {} /\ pc = "idle" /\ enter
         /\ cur = "" /\ open = FALSE /\ nt = FALSE
         /\ stats = [accepted |-> 0, nontrivial |-> 0, rejected |-> 0]
 
-Config == /\ Is("Config")
+\* (a request that was opened must have been answered - Done - before the next one or the next configuration starts)
+Answered == ~open \/ pc = "done"
+Config == /\ Is("Config") /\ Answered
           /\ cfg' = Ev.cfg
           /\ stats' = Close(stats) /\ open' = FALSE /\ nt' = FALSE /\ pc' = "idle"
           /\ l' = l + 1 /\ UNCHANGED <<rq, out, entered, left, tmpl, accepted, cur>>
 
-Req == /\ Is("Req")
+Req == /\ Is("Req") /\ Answered
        /\ rq' = [method |-> Ev.method, kind |-> Ev.kind, segs |-> Ev.segs, cred |-> Ev.cred]
        /\ out' = Outcomes(cfg, [method |-> Ev.method, kind |-> Ev.kind, segs |-> Ev.segs, cred |-> Ev.cred])
        /\ cur' = Ev.case /\ pc' = "recv" /\ entered' = 0 /\ left' = 0 /\ tmpl' = "" /\ accepted' = {}
